@@ -16,6 +16,9 @@ import traceback
 from . import build, driver
 
 VERIF = build.VERIF
+# evidence and replay directories are written under /verif; a tool that runs the checks against a scratch copy of the repository
+# (MSCRIPT_REPO) redirects them so that the committed evidence of the real tree is not overwritten
+OUT = os.environ.get("MSCRIPT_VERIF_OUT", VERIF)
 NPROC = int(os.environ.get("VERIF_JOBS", str(min(16, os.cpu_count() or 4))))
 MAX_VIOLATION_LINES = 40
 
@@ -152,7 +155,7 @@ def finding_matches(entry, prop, viol):
 
 def write_replay(check, case, viol, result):
     h = hashlib.blake2b(repr((case, viol.get("sig"))).encode(), digest_size=6).hexdigest()
-    d = os.path.join(VERIF, "replay", check.id, h)
+    d = os.path.join(OUT, "replay", check.id, h)
     os.makedirs(d, exist_ok=True)
     with open(os.path.join(d, "case.py"), "w") as f:
         f.write(repr({"property": check.id, "module": check.__class__.__module__,
@@ -347,8 +350,8 @@ def write_evidence(check, tier, seed, stats, wall, nviol):
     problems = validate_evidence(ev)
     if problems:
         print("MACHINERY-ERROR: evidence does not satisfy schema:", problems)
-    os.makedirs(os.path.join(VERIF, "evidence"), exist_ok=True)
-    with open(os.path.join(VERIF, "evidence", f"{check.id}.json"), "w") as f:
+    os.makedirs(os.path.join(OUT, "evidence"), exist_ok=True)
+    with open(os.path.join(OUT, "evidence", f"{check.id}.json"), "w") as f:
         json.dump(ev, f, indent=1, default=str)
         f.write("\n")
 
